@@ -2499,8 +2499,14 @@ func (r resolverQuery) loadNodeModules(importPath string, dirInfo *dirInfo, forb
 			}
 		}
 
-		// Try node's old package resolution rules
-		if absolute, ok, diffCase := r.loadAsFileOrDirectory(absPath); ok {
+		// Try node's old package resolution rules. As with relative paths, node
+		// doesn't run the "LOAD_AS_FILE" step if the import path looks like it
+		// resolves to a directory instead of a file.
+		if strings.HasSuffix(importPath, "/") || strings.HasSuffix(importPath, "/.") || strings.HasSuffix(importPath, "/..") {
+			if absolute, ok, diffCase := r.loadAsDirectory(absPath); ok {
+				return absolute, true, diffCase, nil, true
+			}
+		} else if absolute, ok, diffCase := r.loadAsFileOrDirectory(absPath); ok {
 			return absolute, true, diffCase, nil, true
 		}
 
